@@ -387,3 +387,91 @@ Arguments mcols {K}.
 Arguments ment {K}.
 
 (* ------------------------------------------------------------------------------------------ *)
+
+(* ------------------------------------------------------------------------------------------ *)
+(* the decorators of furax/_base/core.py as data (FuraxGen.TagTable.gen_decorators, read from the
+   source with ast): per decorator the lineax tags it registers `lambda _: True` for, the decorators
+   it calls, and the class attributes it assigns.  `deco_closure` = every query a decorator makes
+   true of the class it is applied to; `deco_primary` = the property the decorator's name declares;
+   `implies_ok p q` = "a matrix with property p has property q" (proved in TagsL.implies_sound). *)
+Definition deco_entry := (string * (list string * (list string * list (string * string))))%type.
+Definition tagq_of_name (s : string) : option tagq := find (fun q => String.eqb (tagq_name q) s) tagqs.
+Definition effect_of_set (av : string * string) : option tagq :=
+  let '(a, v) := av in
+  if String.eqb a "transpose" && String.eqb v "lambda self: self" then Some QSelfT
+  else if String.eqb a "inverse" && String.eqb v "cls.transpose" then Some QInvIsT
+  else if String.eqb a "out_structure" && String.eqb v "cls.in_structure" then Some QSquare
+  else None.
+Definition deco_primary (name : string) : option tagq :=
+  if String.eqb name "diagonal" then Some QDiagonal
+  else if String.eqb name "lower_triangular" then Some QLower
+  else if String.eqb name "upper_triangular" then Some QUpper
+  else if String.eqb name "symmetric" then Some QSymmetric
+  else if String.eqb name "positive_semidefinite" then Some QPsd
+  else if String.eqb name "negative_semidefinite" then Some QNsd
+  else if String.eqb name "square" then Some QSquare
+  else if String.eqb name "orthogonal" then Some QInvIsT
+  else None.
+Definition oapp {A} (a b : option (list A)) : option (list A) :=
+  match a, b with Some x, Some y => Some (x ++ y) | _, _ => None end.
+Fixpoint deco_closure (fuel : nat) (ds : list deco_entry) (name : string) : option (list tagq) :=
+  match fuel with
+  | O => None
+  | S f =>
+      match find (fun e : deco_entry => String.eqb (fst e) name) ds with
+      | None => None
+      | Some (_, (tags, (calls, sets))) =>
+          oapp (oseq (map tagq_of_name tags))
+               (oapp (oseq (map effect_of_set sets))
+                     (match oseq (map (deco_closure f ds) calls) with
+                      | Some ls => Some (List.concat ls) | None => None end))
+      end
+  end.
+Definition tagq_eqb (a b : tagq) : bool := (tagq_idx a =? tagq_idx b)%nat.
+Definition implies_ok (p q : tagq) : bool :=
+  tagq_eqb p q ||
+  match p, q with
+  | _, QSquare => true
+  | QDiagonal, (QLower | QUpper | QTridiagonal | QSymmetric | QSelfT) => true
+  | (QSymmetric | QPsd | QNsd), (QSymmetric | QSelfT) => true
+  | QSelfT, QSymmetric => true
+  | _, _ => false
+  end.
+Definition decorators_ok (ds : list deco_entry) : bool :=
+  forallb (fun e : deco_entry =>
+             match deco_primary (fst e), deco_closure 6 ds (fst e) with
+             | Some p, Some qs => forallb (implies_ok p) qs
+             | _, _ => false
+             end) ds.
+(* the tags given a `lambda _: False` default at class creation are exactly the seven predicates *)
+Definition default_tags_ok (l : list string) : bool :=
+  list_eqb String.eqb l (map tagq_name [QDiagonal; QLower; QUpper; QTridiagonal; QSymmetric; QPsd; QNsd]).
+
+(* ------------------------------------------------------------------------------------------ *)
+(* the instance the harness evaluates: K := Q (results reduced with Qred); parameters as lists *)
+Module TagsQ.
+  Definition outQ (r : list (list Q) * struct * option struct) :=
+    let '(m, i, o) := r in (map (map Qred) m, i, o).
+  Definition vq (l : list Q) : vec Q := vec_of Q 0%Q l.
+  Definition o_identity (st : struct) := outQ (obs Q (cm_identity Q 0%Q 1%Q) st).
+  Definition o_homothety (k : Q) (st : struct) := outQ (obs Q (cm_homothety Q 0%Q 1%Q Qmult) (k, st)).
+  Definition p_diag (vals : list Q) (leaves : list (shape * shape * shape)) := mkDg Q (vq vals) leaves.
+  Definition o_diag_ctor vals leaves := diag_ctor Q (p_diag vals leaves).
+  Definition o_diagonal vals leaves := outQ (obs Q (cm_diagonal Q 0%Q 1%Q Qmult) (p_diag vals leaves)).
+  Definition o_diagonal_inverse vals leaves :=
+    outQ (obs Q (cm_diagonal_inverse Q 0%Q 1%Q Qmult Qinv) (p_diag vals leaves)).
+  Definition o_hwp (s : stokes) (sh : shape) := outQ (obs Q (cm_hwp Q 0%Q 1%Q Qopp) (s, sh)).
+  Definition o_toeplitz (xb : shape) (n : Z) (bb : shape) (bands : list (list Q)) :=
+    outQ (obs Q (cm_toeplitz Q 0%Q) (mkTp Q xb n bb (map (arr_of Q 0%Q) bands))).
+  Definition o_qurot (s : stokes) (sh ash : shape) (c sn : list Q) :=
+    outQ (obs Q (cm_qurot Q 0%Q 1%Q Qplus Qmult Qminus) (mkQr Q s sh ash (vq c) (vq sn))).
+  Definition o_qurotT (s : stokes) (sh ash : shape) (c sn : list Q) :=
+    outQ (obs Q (cm_qurotT Q 0%Q 1%Q Qplus Qmult Qopp) (mkQr Q s sh ash (vq c) (vq sn))).
+  Definition o_lazy_inv_orth (rows : list (list Q)) (n : Z) (sin sout : struct) :=
+    outQ (obs Q (cm_lazy_inv_orth Q 0%Q 1%Q Qplus Qmult) (mkLio Q (mat_of Q 0%Q rows n n) sin sout)).
+  Definition zvec (l : list Z) : Z -> Z := fun p => if p <? 0 then 0 else nth (Z.to_nat p) l 0.
+  Definition o_moveaxis (tau sigma : list Z) :=
+    outQ (obs Q (cm_moveaxis Q 0%Q 1%Q) (mkPm (Z.of_nat (List.length tau)) (zvec tau) (zvec sigma))).
+  Definition o_obs_ctor (r c : Z) := obs_ctor Q (mkMat r c (fun _ _ => 0%Q)).
+  Definition o_obs_matrix (rows : list (list Q)) (r c : Z) := outQ (obs Q (cm_obs_matrix Q) (mat_of Q 0%Q rows r c)).
+End TagsQ.
